@@ -19,7 +19,7 @@ type Op struct {
 	K    string `json:"k"`              // set await cancel fire setpromise setresult
 	Err  string `json:"err,omitempty"`  // set/setresult: "" | custom | canceled | deadline
 	Kind string `json:"kind,omitempty"` // await: plain | errch | cancelch
-	Fire string `json:"fire,omitempty"` // fire: send | close
+	Fire string `json:"fire,omitempty"` // fire: send | close | nil (a nil error is sent on the error channel)
 	New  string `json:"new,omitempty"`  // setpromise: new | nil | same
 	Pre  bool   `json:"pre,omitempty"`
 	Pick int    `json:"pick,omitempty"`
@@ -53,7 +53,7 @@ func genCase(t *rapid.T) Case {
 			op.Pick = rapid.IntRange(0, 5).Draw(t, "pick")
 		case "fire":
 			op.Pick = rapid.IntRange(0, 5).Draw(t, "pick")
-			op.Fire = rapid.SampledFrom([]string{"send", "close"}).Draw(t, "fire")
+			op.Fire = rapid.SampledFrom([]string{"send", "send", "close", "close", "nil"}).Draw(t, "fire")
 		case "setpromise":
 			op.New = rapid.SampledFrom([]string{"new", "new", "nil", "same"}).Draw(t, "new")
 			op.Pick = rapid.IntRange(0, 5).Draw(t, "pick")
@@ -96,6 +96,7 @@ type awaiter struct {
 	cancelCh  chan struct{}
 	fired     bool // channel was sent to / closed
 	sentErr   error
+	sentNil   bool // a nil error was sent on the error channel
 	returned  bool
 	val       int
 	err       error
@@ -476,6 +477,8 @@ func body11(c *sched.Ctl, cs Case, v *ev.Verdict) {
 				case err == nil && a.kind == "cancelch" && a.fired && cs.Container:
 					// documented: the container returns (zero, nil) when cancelCh fires
 				case a.sentErr != nil && err == a.sentErr:
+				case a.sentNil && err == nil:
+					// the channel fired with a nil error: the await is over, without a result
 				default:
 					fail("promise:spurious-return", "%s await #%d returned (0,%v) although no result was delivered to it, its context is live (cancelled=%v) and its channel did not fire (fired=%v)", a.kind, a.id, err, a.cancelled, a.fired)
 				}
@@ -516,6 +519,10 @@ func body11(c *sched.Ctl, cs Case, v *ev.Verdict) {
 				if op.Fire == "close" {
 					hm.Unlock()
 					close(a.errCh)
+				} else if op.Fire == "nil" {
+					a.sentNil = true
+					hm.Unlock()
+					a.errCh <- nil
 				} else {
 					a.sentErr = fmt.Errorf("errch-error-%d", a.id)
 					hm.Unlock()
